@@ -169,9 +169,43 @@ def sweep_plaintext(tier, viol, stats):
                                  "input": {"words": ws, "width": width, "initial_column": 0, "subsequent_offset": 0}, "got": p})
 
 
+def sweep_containers(tier, viol, stats, rnd):
+    """the pipeline level in fill mode: paragraphs behind list / task / ordered / quote / footnote markers: no output line
+    is wider than the width unless it holds a single word, and no line could have taken the next word"""
+    from flowmark.reformat_api import reformat_text
+    heads = [("- ", "  "), ("- [ ] ", "  "), ("- [x] ", "  "), ("1. ", "   "), ("10. [ ] ", "    "), ("> ", "> "), ("> - [ ] ", ">   ")]
+    for i in range(40 if tier == "quick" else 400):
+        words = ["w" * rnd.choice((1, 2, 3, 5, 8)) for _ in range(rnd.choice((4, 7, 11)))]
+        head, cont = rnd.choice(heads)
+        text = head + " ".join(words) + "\n"
+        for width in (12, 16, 21, 30):
+            out = reformat_text(text, width=width, semantic=False).rstrip("\n").split("\n")
+            stats["evals"] += 1
+            bodies = []
+            for k, ln in enumerate(out):
+                pre = head if k == 0 else cont
+                if not ln.startswith(pre.rstrip()) :
+                    viol.append({"clause": "indents", "function": "reformat_text(container)", "input": {"text": text, "width": width}, "got": out})
+                    break
+                body = ln[len(pre):]
+                bodies.append(body)
+                if len(ln) > width and " " in body:
+                    viol.append({"clause": "bounded", "function": "reformat_text(container)", "input": {"text": text, "width": width}, "got": out})
+                    break
+            else:
+                if " ".join(bodies).split() != words:
+                    viol.append({"clause": "lossless", "function": "reformat_text(container)", "input": {"text": text, "width": width}, "got": out})
+                for k in range(len(out) - 1):
+                    nxt = bodies[k + 1].split(" ")[0]
+                    if len(out[k]) + 1 + len(nxt) <= width:
+                        viol.append({"clause": "maximal", "function": "reformat_text(container)", "input": {"text": text, "width": width}, "got": out})
+                        break
+
+
 def bounded(tier, seed):
     rnd = random.Random(seed)
     viol, stats = [], {"evals": 0, "distinct": set()}
+    sweep_containers(tier, viol, stats, rnd)
     sweep_w(tier, viol, stats)
     sweep_wrappers(tier, viol, stats, rnd)
     sweep_fill_text(tier, viol, stats)
@@ -183,7 +217,7 @@ def bounded(tier, seed):
             "rule": "exhaustive word-length vectors (lengths {1,2,4,7}, <=4 words quick / <=5 thorough) x widths x (initial_column, "
                     "subsequent_offset) pairs x markdown flag for wrap_paragraph_lines / wrap_paragraph; (lengths {1,3,6}, 3-4 words, "
                     "every placement of sentence ends) x widths x container indents for both line wrappers; fill_text Wrap.WRAP on "
-                    "two-paragraph texts; clauses lossless / indents / bounded / maximal / no_wrap of spec/wraps.py; distinct = "
+                    "two-paragraph texts; seeded paragraphs behind list / task / ordered / quote markers through reformat_text at 4 widths; clauses lossless / indents / bounded / maximal / no_wrap of spec/wraps.py; distinct = "
                     "distinct (input shape, number of lines)",
             "exhaustive": tier == "thorough", "bound": "see rule"}
 
